@@ -572,11 +572,11 @@ theorem primaryGC_c07g (hU : Univ c.kind U) {m : Mem} {d : Disk} {k : Nat}
   | deadline =>
     simp only [Option.some.injEq] at hres; subst hres
     obtain ⟨a1, a2, a3, a4⟩ := hp1 (by decide)
-    exact hq a1 a2 a3 a4
+    exact hq (a1.visited _) a2 a3 a4
   | err =>
     simp only [Option.some.injEq] at hres; subst hres
     obtain ⟨a1, a2, a3, a4⟩ := hp1 (by decide)
-    exact hq a1 a2 a3 a4
+    exact hq (a1.visited _) a2 a3 a4
   | ok =>
   obtain ⟨hG1, hT1, hin1, _⟩ := hp1 (by decide)
   cases hf2 : freelistPass m1 d1 b1 with
@@ -595,11 +595,11 @@ theorem primaryGC_c07g (hU : Univ c.kind U) {m : Mem} {d : Disk} {k : Nat}
   | deadline =>
     simp only [Option.some.injEq] at hres; subst hres
     obtain ⟨a1, a2, a3, a4⟩ := hp2 (by decide)
-    exact hq a1 a2 a3 a4
+    exact hq (a1.visited _) a2 a3 a4
   | err =>
     simp only [Option.some.injEq] at hres; subst hres
     obtain ⟨a1, a2, a3, a4⟩ := hp2 (by decide)
-    exact hq a1 a2 a3 a4
+    exact hq (a1.visited _) a2 a3 a4
   | ok =>
   obtain ⟨hG2, hT2, hin2, hpn2⟩ := hp2 (by decide)
   have hG3 := hG2.visited (m2.visited.filter (fun f => !(aff1 ++ aff2).contains f))
